@@ -3384,6 +3384,22 @@ bool ts_query__step_is_fallible(
     next_step = array_get(&self->steps, step_index + i);
     i++;
   } while (next_step->is_pass_through);
+
+  // When this step has child steps, the step that follows its whole subtree can
+  // be an anchored sibling: that anchor can fail as well, whatever the analysis
+  // says about the children.
+  if (next_step->depth != PATTERN_DONE_MARKER && next_step->depth > step->depth) {
+    for (unsigned j = step_index + i; j < self->steps.size; j++) {
+      QueryStep *later_step = array_get(&self->steps, j);
+      if (later_step->depth == PATTERN_DONE_MARKER || later_step->depth < step->depth) break;
+      if (later_step->is_pass_through) continue;
+      if (later_step->depth == step->depth) {
+        if (later_step->is_immediate) return true;
+        break;
+      }
+    }
+  }
+
   return (
     next_step->depth != PATTERN_DONE_MARKER &&
     (next_step->depth > step->depth ||
